@@ -18,7 +18,7 @@ D1 == Leaf \cup UE
       \cup {[c |-> "struct", f |-> <<s, t, u>>] : s \in {L("u8"), L("string")}, t \in {L("u64"), L("bool")}, u \in {L("u16"), L("value"), L("f64")}}
       \cup {[c |-> "tstruct", f |-> <<s, t>>] : s \in LeafS, t \in LeafS}
       \cup {[c |-> "newtype", e |-> s] : s \in Leaf}
-      \cup {[c |-> "dataenum", e |-> s] : s \in LeafS}
+      \cup {[c |-> "dataenum", vk |-> vk, e |-> s] : s \in LeafS, vk \in {"newtype", "tuple2", "struct1", "struct2"}}
       \cup {[c |-> "dict", f |-> <<s, t>>] : s \in {L("u32"), L("string")}, t \in {L("u8"), L("bool"), L("string"), L("u64")}}
 Mid == {s \in D1 : s.c \in {"vec", "map", "tuple", "struct", "tstruct", "newtype", "dataenum", "unitenum", "dict"}}
 D2 == D1 \cup {[c |-> "vec", e |-> s] : s \in Mid}
@@ -27,7 +27,7 @@ D2 == D1 \cup {[c |-> "vec", e |-> s] : s \in Mid}
          \cup {[c |-> "newtype", e |-> s] : s \in Mid}
          \cup {[c |-> "map", k |-> L("string"), v |-> s] : s \in Mid}
          \cup {[c |-> "tuple", f |-> <<s, L("string")>>] : s \in Mid}
-         \cup {[c |-> "dataenum", e |-> s] : s \in Mid \ {m \in Mid : m.c = "dict"}}
+         \cup {[c |-> "dataenum", vk |-> vk, e |-> s] : s \in Mid \ {m \in Mid : m.c = "dict"}, vk \in {"newtype", "struct1"}}
 Shapes == IF LEVEL = 1 THEN D1 ELSE D2
 VARIABLE s
 Init == s \in Shapes
